@@ -239,6 +239,9 @@ func k8(args []string) {
 			"pkg/wire_codec/doc.go":      "package wire_codec\n",
 			// two levels down, below a directory that holds no files itself
 			"pkg/internal/deep/deep_co.go": coFile("deep", "co", []string{"RangeInt"}, "D"),
+			// a co source that ANOTHER generator wrote (it carries the standard generated-code header) is a
+			// source like any other
+			"pkg/table_co.go": "// Code generated by tablegen -type=Item DO NOT EDIT.\n\n" + coFile("pkg", "co", []string{"RangeInt"}, "B"),
 		}
 		for rel, c := range files {
 			mustWrite(filepath.Join(root, rel), c)
@@ -258,7 +261,7 @@ func k8(args []string) {
 		} else {
 			after := snapshot(root)
 			want := map[string]bool{"pkg/gen.go": true, "pkg/gen_test.go": true, "pkg/other.go": true, "pkg/sub/gen.go": true,
-				"pkg/tcp_conn.go": true, "pkg/wire_codec/frame.go": true, "pkg/internal/deep/deep.go": true}
+				"pkg/tcp_conn.go": true, "pkg/wire_codec/frame.go": true, "pkg/internal/deep/deep.go": true, "pkg/table.go": true}
 			var created, changed []string
 			for p, c := range after {
 				if old, ok := before[p]; !ok {
@@ -370,6 +373,30 @@ func k8(args []string) {
 			o, err := t.CombinedOutput()
 			res.C16 = append(res.C16, k8Case{"subpackage-test-file-only: tests-pass-without-tag", err == nil && strings.Contains(string(o), "ok"), tail(string(o), 400)})
 		}
+	}
+	// C15 in go:generate mode: the derived file of a co file must not depend on an UNRELATED plain test file
+	// sitting in the same package (with tests loaded, a non-test file belongs to two package variants)
+	if _, err := os.Stat(cogen); err == nil {
+		src := "//go:build co\n\npackage q\n\nimport . \"github.com/goghcrow/go-co\"\n\n//go:generate true\n\n// Evens yields the even elements\nfunc Evens(xs []int) Iter[int] {\n\t// pick is a generator literal\n\tpick := func(ys []int) Iter[int] {\n\t\tfor _, y := range ys {\n\t\t\tif y%2 == 0 {\n\t\t\t\tYield(y)\n\t\t\t}\n\t\t}\n\t\treturn nil\n\t}\n\tYieldFrom(pick(xs))\n\treturn nil\n}\n"
+		outs := map[string]string{}
+		for _, variant := range []string{"alone", "with-unrelated-test-file"} {
+			root := filepath.Join(mod, "g4", variant)
+			mustWrite(filepath.Join(root, "q", "gen_co.go"), strings.Replace(src, "package q", "package q", 1))
+			if variant != "alone" {
+				mustWrite(filepath.Join(root, "q", "other_test.go"), "package q\n\nimport \"testing\"\n\nfunc TestNothing(t *testing.T) {}\n")
+			}
+			c := exec.Command(cogen)
+			c.Dir = filepath.Join(root, "q")
+			c.Env = append(os.Environ(), "GOFILE=gen_co.go")
+			if o, err := c.CombinedOutput(); err != nil {
+				outs[variant] = "cogen failed: " + tail(string(o), 300)
+				continue
+			}
+			b, _ := os.ReadFile(filepath.Join(root, "q", "gen.go"))
+			outs[variant] = string(b)
+		}
+		res.C15 = append(res.C15, k8Case{"gogen-unrelated-test-file", outs["alone"] != "" && outs["alone"] == outs["with-unrelated-test-file"] && !strings.HasPrefix(outs["alone"], "cogen failed"),
+			diffHint(outs["alone"], outs["with-unrelated-test-file"])})
 	}
 	// a third tree: a co file of a sub-package IMPORTS the package above it, whose generators are generated in
 	// the same run (finding D26 on this tree: the optimise stage type-checks the temporary copy of the
